@@ -1,5 +1,6 @@
 """Engine A: level-synchronous explicit-state BFS over the real mutation API, with the
 reference semantics run in lock-step on every transition."""
+import os
 import sys
 import time
 
@@ -310,6 +311,29 @@ def _expand_chunk(chunk):
                     new[post_enc] = None
                     continue
                 new[post_enc] = hist + (op,)
+            # reading is an operation too: a library that memoises what its getters return has hidden state that only a read fills,
+            # and 'read, change, read again' is a different history from 'change, read'. Where a read leaves the snapshot unchanged
+            # (no such state - the case on the unchanged tree) there is nothing to do; where it changes it, every operation is run
+            # once more from the state as it is after reading. These successors are checked but not expanded further: hidden state
+            # multiplies the state space without bound, one step of it is what a single stale cache needs to show.
+            U.restore(enc)
+            core.read_all(U)
+            warm = U.encode()
+            if warm != enc:
+                acc.count('states_where_reading_changes_hidden_state')
+                whist = hist + (('read',),)
+                for op in ops:
+                    if op[0] == 'Task()':
+                        continue
+                    try:
+                        with seams.time_limit(60):
+                            run_transition(U, warm, pre_obs, pre_abs, op, acc, whist, cache, obs_cache, pre_ok)
+                        acc.count('transitions_after_reading')
+                    except seams.WallTimeout:
+                        acc.violation(runtime.CURRENT_PROP or 'C01', f'{op[0]}/operation-does-not-terminate/-',
+                                      f'{O.describe(op)} was still running after 60 s',
+                                      {'universe': U.name, 'readable_history': [O.describe(h) for h in whist], 'op': O.describe(op)})
+                        break
     finally:
         sys.setrecursionlimit(old_limit)
     acc.extra['new'] = [(k, v) for k, v in new.items()]
@@ -475,6 +499,15 @@ def seeded_states(uname, deep_only=True, in_wbs=(True,), max_links=1):
     return out
 
 
+def _verdict_settled(acc):
+    every = bool(os.environ.get('VF_ALL_PROPS'))
+    known = runtime.load_known()
+    for (prop, sig) in acc.viol:
+        if (every or prop == runtime.CURRENT_PROP) and runtime.match_known(known, prop, sig) is None:
+            return True
+    return False
+
+
 def _chase(U, chase, acc, rounds=2, cap=800):
     """Successor states of the rich alphabet that break only C05 / C11 (e.g. a task that dropped out of its tree and still names its
     WBS) are followed for two more steps of the attach alphabet: what such a state allows next (a second task with the same id
@@ -482,8 +515,10 @@ def _chase(U, chase, acc, rounds=2, cap=800):
     global _OPS, _SEEN
     if not chase:
         return
-    if len(acc.viol) > 60:
-        # dozens of distinct violation signatures already: the verdict is settled, following broken states further only costs time
+    if _verdict_settled(acc):
+        # the property under check already has a violation that decides the exit code: following broken states further only
+        # costs time. Violations of OTHER properties do not settle anything - a change that breaks C01 in many states may break
+        # C05 only two steps later, and that is exactly what the chase is for.
         acc.count('chase_skipped_verdict_settled')
         return
     saved = U.alphabet
